@@ -57,7 +57,14 @@ TraceSigEv ==
              \cup (IF IsCallback(e) THEN Cl(e.callback_got = CallbackRanges(f, e.method), "C10.callback_receives_exact_bytes") ELSE {})
          doc == (IF Unusable(e) /\ ~e.built THEN {"DOC.dpkgsig_cannot_use_subkey_only_key"} ELSE {})
                 \cup (IF e.fail = "unknown_key_id" /\ e.method = "dpkg-sig" /\ e.built THEN {"DOC.dpkgsig_ignores_unknown_key_id"} ELSE {})
-     IN Rec(req, doc, IF HasPrefix(e.err, "parse:") \/ HasPrefix(e.err, "decode:") THEN {"harness_" \o SubSeq(e.err, 1, 6)} ELSE {})
+         \* C06 on the same observation: a packaging that reports success has delivered a COMPLETE package - with signing
+         \* configured that includes a signature that is there and verifies (an empty or garbage signature member is
+         \* incomplete output reported as success)
+         c06 == IF e.built /\ (req \cap {"C10.verifies_over_exact_bytes", "C10.rpm_header_signature_verifies", "C10.rpm_header_payload_signature_verifies",
+                                         "C10.dpkgsig_manifest_matches_members", "C10.deb_signature_member", "C10.apk_signature_member",
+                                         "C10.rpm_signature_tags"}) # {}
+                THEN {"C06.success_only_with_a_complete_signature"} ELSE {}
+     IN Rec(req \cup c06, doc, IF HasPrefix(e.err, "parse:") \/ HasPrefix(e.err, "decode:") THEN {"harness_" \o SubSeq(e.err, 1, 6)} ELSE {})
   /\ UNCHANGED <<cid, ncases, x>>
 
 (* Sig!KeyOfSignature across builds of one process: a signature is made with the key that is in the key file when the *)
